@@ -99,6 +99,12 @@ fn pk_case(rec: &mut Rec, ctx: &Ctx, idx: u64, rng: &mut ChaCha20Rng) {
   if let Some(&tag) = tags.first() {
     let input = rand_bytes_in(rng, 0..30);
     let (bp, _) = Client::blind(&input);
+    // requests are arbitrary points: now and then the neutral element or the base point
+    let bp = match idx % 4 {
+      1 => Point::from(&[0u8; 32][..]),
+      3 => Point::from(&curve25519_dalek::constants::RISTRETTO_BASEPOINT_COMPRESSED.to_bytes()[..]),
+      _ => bp,
+    };
     if let Ok(ev) = server.eval(&bp, tag, true) {
       rec.ev("interchangeability_checks");
       let a = Client::verify(&pk, &bp, &ev, tag);
@@ -264,11 +270,19 @@ fn pk_case(rec: &mut Rec, ctx: &Ctx, idx: u64, rng: &mut ChaCha20Rng) {
         format!("load_from_bincode accepted bytes that do not decode under the layout / exceed the size limit ({}, {} bytes)", desc, inp.len()),
         json!({"input": hex_short(&inp), "loaded": hex_short(&r)}),
       ),
-      (Some(None), Some(_)) => rec.violation(
-        &format!("pk-valid-rejected:{}", desc.split(':').next().unwrap()),
-        format!("load_from_bincode rejected decodable bytes within the size limit ({}, {} bytes)", desc, inp.len()),
-        json!({"input": hex_short(&inp)}),
-      ),
+      // a key can only be an "original" if all its points encode group elements; a loader
+      // that also refuses keys holding 32 bytes that are no element is within the statement
+      (Some(None), Some(_)) => {
+        if model_pk(&inp).map(|(b, mp)| is_element(&b) && mp.values().all(|v| is_element(v))).unwrap_or(false) {
+          rec.violation(
+            &format!("pk-valid-rejected:{}", desc.split(':').next().unwrap()),
+            format!("load_from_bincode rejected decodable bytes within the size limit ({}, {} bytes)", desc, inp.len()),
+            json!({"input": hex_short(&inp)}),
+          )
+        } else {
+          rec.ev("pk_non_element_rejected")
+        }
+      }
       (None, _) => {}
     }
   }
@@ -340,9 +354,15 @@ fn proof_case(rec: &mut Rec, _ctx: &Ctx, idx: u64, rng: &mut ChaCha20Rng) {
 /// JSON evaluations whose base64 `output` field is varied: accepted iff the
 /// string is canonical standard base64 of exactly 32 bytes, and then the point is
 /// exactly those bytes (never a zero-filled or truncated value)
+/// do these 32 bytes encode a group element?
+fn is_element(b: &[u8]) -> bool {
+  b.len() == 32 && curve25519_dalek::ristretto::CompressedRistretto::from_slice(b).ok().and_then(|c| c.decompress()).is_some()
+}
+
 fn json_case(rec: &mut Rec, _ctx: &Ctx, idx: u64, rng: &mut ChaCha20Rng) {
   use base64::{engine::Engine as _, prelude::BASE64_STANDARD};
-  let good_bytes = rand_bytes(rng, 32);
+  // (an honest blinded request: always the encoding of a group element)
+  let good_bytes = Client::blind(&rand_bytes(rng, 8)).0.as_bytes().to_vec();
   let good_js = format!("{{\"output\":\"{}\",\"proof\":null}}", BASE64_STANDARD.encode(&good_bytes));
   for (desc, s) in crate::hostile::b64_output_strings(rng) {
     let js = format!("{{\"output\":{},\"proof\":null}}", serde_json::to_string(&s).unwrap_or_default());
@@ -360,7 +380,15 @@ fn json_case(rec: &mut Rec, _ctx: &Ctx, idx: u64, rng: &mut ChaCha20Rng) {
         format!("an Evaluation whose output field is {:?} ({}) was accepted as the point {}; the field {}", s, desc, hex(&r), if m.is_some() { "denotes other bytes" } else { "does not decode to 32 bytes" }),
         json!({"json": js, "kind": kind}),
       ),
-      (Some(None), Some(_)) => rec.violation("json-valid-rejected", format!("a well-formed evaluation was rejected ({})", desc), json!({"json": js})),
+      // only encodings of actual group elements can be "originals"; a loader that also
+      // refuses 32 bytes that are no element is within the statement
+      (Some(None), Some(m)) => {
+        if is_element(&m) {
+          rec.violation("json-valid-rejected", format!("a well-formed evaluation was rejected ({})", desc), json!({"json": js}))
+        } else {
+          rec.ev("json_non_element_rejected")
+        }
+      }
       (None, _) => {}
     }
     // whatever happened to that input, the next well-formed evaluation on this
@@ -377,6 +405,38 @@ fn json_case(rec: &mut Rec, _ctx: &Ctx, idx: u64, rng: &mut ChaCha20Rng) {
         return;
       }
       None => {}
+    }
+  }
+  // structured 32-byte values are points like any other (the type does not validate them)
+  for (desc, bytes) in [
+    ("all-zero (neutral element)", [0u8; 32]),
+    ("base point", curve25519_dalek::constants::RISTRETTO_BASEPOINT_COMPRESSED.to_bytes()),
+    ("all-FF", [0xffu8; 32]),
+    ("one", { let mut b = [0u8; 32]; b[0] = 1; b }),
+    ("top bit", { let mut b = [0u8; 32]; b[31] = 0x80; b }),
+  ] {
+    let js = format!("{{\"output\":\"{}\",\"proof\":null}}", BASE64_STANDARD.encode(bytes));
+    rec.evals += 1;
+    rec.ev("json_structured_points");
+    rec.case(&("json-structured", desc));
+    match quiet(rec, || serde_json::from_str::<Evaluation>(&js).ok().map(|e| e.output.as_bytes().to_vec())) {
+      Some(Some(v)) if v == bytes.to_vec() => {}
+      Some(None) if !is_element(&bytes) => rec.ev("json_non_element_rejected"),
+      Some(other) => rec.violation(
+        "json-valid-rejected:structured-point",
+        format!("an evaluation whose output is the {} point was {}", desc, if other.is_some() { "restored to other bytes" } else { "rejected" }),
+        json!({"json": js}),
+      ),
+      None => {}
+    }
+    if !is_element(&bytes) {
+      continue;
+    }
+    let p = Point::from(&bytes[..]);
+    let ps = serde_json::to_string(&p).unwrap_or_default();
+    match serde_json::from_str::<Point>(&ps) {
+      Ok(p2) if p2 == p => {}
+      _ => rec.violation("point-json-roundtrip", format!("the {} point does not survive JSON", desc), json!({"json": ps})),
     }
   }
   // a present but malformed proof never yields an evaluation with a proof
